@@ -893,3 +893,73 @@ def units_as_configured(ctx):
         ctx.require(d in (1, 100000000) and not isinstance(d, bool), 'bitcoinlib/data/providers.json', 'provider %s: denominator is %r (expected 1 for APIs reporting the smallest unit, 100000000 for APIs reporting coins)' % (name, d), None)
     ctx.saw('%d provider entries carry denominator 1 or 100000000' % k)
     ctx.floor(k, 30, 'provider entries')
+
+
+def _floaty(e):
+    """does evaluating e involve float arithmetic (true division, a float literal, float(...), round(x, n))?"""
+    for x in ast.walk(e):
+        if isinstance(x, ast.BinOp) and isinstance(x.op, ast.Div):
+            return True
+        if isinstance(x, ast.Constant) and isinstance(x.value, float):
+            return True
+        if isinstance(x, ast.Call) and norm(x.func) == 'float':
+            return True
+        if isinstance(x, ast.Call) and norm(x.func) == 'round' and (len(x.args) > 1 or x.keywords):
+            return True
+    return False
+
+
+def _int_top(e):
+    if _int_valued(e):
+        return True
+    if isinstance(e, ast.Call) and norm(e.func) in ('math.ceil', 'math.floor', 'ceil', 'floor', 'len'):
+        return True
+    if isinstance(e, ast.BinOp) and isinstance(e.op, ast.FloorDiv) and not _floaty(e):
+        return True
+    if isinstance(e, ast.BinOp) and isinstance(e.op, (ast.Add, ast.Sub, ast.Mult)):
+        return _int_top(e.left) and _int_top(e.right)
+    if isinstance(e, ast.IfExp):
+        return _int_top(e.body) and _int_top(e.orelse)
+    return False
+
+
+_FEE_TARGETS = ('fee', 'extra_fee', 'fee_estimate', 'fee_exact', 'fee_per_kb', 'remaining_fee')
+
+
+@PROP.obligation('C17.fee-integer', canaries=[
+    mut.replace_expr('transactions', 'Transaction.calculate_fee', 'int(self.vsize / 1000.0 * self.fee_per_kb)', 'round(self.vsize / 1000.0 * self.fee_per_kb, 0)', 'calculate_fee returns round(x, 0), a float'),
+    mut.replace_expr('wallets', 'Wallet.transaction_create', 'int(transaction.size / 1000.0 * transaction.fee_per_kb)', 'transaction.size / 1000.0 * transaction.fee_per_kb', 'the fee of a created transaction is a float'),
+])
+def fee_integer(ctx):
+    """Fees are integers of the smallest unit. Wherever transactions.py / wallets.py compute a fee with float arithmetic (a true division,
+    a float literal, float(...), round(x, n)) and store it in fee / X.fee / extra_fee / fee_estimate / fee_per_kb or return it from a
+    *fee* function, the outermost operation makes it an int: int(...), round(x) with ONE argument, math.ceil / floor. round(x, 0)
+    returns a float (188.0): Wallet.send hands calculate_fee() on as the exact fee of the re-created transaction."""
+    n = 0
+    for modname in ('transactions', 'wallets'):
+        mod = ctx.repo.mod(modname)
+        for name, fn in sorted(mod.functions.items()):
+            q = '%s:%s' % (modname, name)
+            sites = []
+            for a in walk_no_nested(fn):
+                if isinstance(a, ast.Assign):
+                    for t in a.targets:
+                        tn = t.id if isinstance(t, ast.Name) else (t.attr if isinstance(t, ast.Attribute) else None)
+                        if tn in _FEE_TARGETS:
+                            sites.append((a.value, a, '%s = ' % norm(t)))
+                elif isinstance(a, ast.Return) and a.value is not None and 'fee' in name.split('.')[-1].lower():
+                    if isinstance(a.value, ast.Name):
+                        for d in walk_no_nested(fn):
+                            if isinstance(d, ast.Assign) and any(isinstance(t, ast.Name) and t.id == a.value.id for t in d.targets):
+                                sites.append((d.value, d, 'return of %s = ' % a.value.id))
+                    else:
+                        sites.append((a.value, a, 'return '))
+            for e, node, what in sites:
+                if not _floaty(e):
+                    continue
+                n += 1
+                ok = _int_top(e)
+                ctx.saw('%s: %s%s -> %s' % (q, what, norm(e)[:60], 'int' if ok else 'FLOAT'))
+                ctx.require(ok, q, '`%s%s` is computed with float arithmetic and not converted to an integer (round(x, n) returns a float)' % (what, norm(e)[:70]), node,
+                            'calculate_fee() returns 188.0: Wallet.send(fee=None) hands it to transaction_create(fee=fee_exact), where a non-int fee skips the integer path and becomes transaction.fee')
+    ctx.floor(n, 12, 'fees computed with float arithmetic')
